@@ -199,6 +199,36 @@ def r2(p, rep):
         appends = [n for n in walk_no_nested(g.node) if isinstance(n, ast.Call) and norm(n.func) == f"{lst}.append"]
         cfgg = CFG(g.node)
         good = bool(appends) and all(any("KEYWORD_ONLY" in norm(t) and pol for t, pol in cfgg.guards(cfgg.node_for(a))) for a in appends)
+        extra = []
+        if not appends:
+            # built in one go: `[name for name, param in parameters.items() if param.kind is KEYWORD_ONLY [and name not in reserved]]`
+            from sa.cfg import decompose
+
+            defs = [a.value for a in walk_no_nested(g.node) if isinstance(a, ast.Assign) and any(isinstance(t, ast.Name) and t.id == lst for t in a.targets)]
+            if len(defs) == 1 and isinstance(defs[0], (ast.ListComp, ast.SetComp)):
+                conds = [(t, pol) for gen in defs[0].generators for i_ in gen.ifs for t, pol in decompose(i_, True)]
+                good = any("KEYWORD_ONLY" in norm(t) and pol and isinstance(t, ast.Compare) and isinstance(t.ops[0], (ast.Is, ast.Eq)) for t, pol in conds)
+                extra = [(t, pol) for t, pol in conds if "KEYWORD_ONLY" not in norm(t)]
+        else:
+            for a in appends:
+                extra += [(t, pol) for t, pol in cfgg.guards(cfgg.node_for(a)) if "KEYWORD_ONLY" not in norm(t) and "VAR_KEYWORD" not in norm(t) and "callable(" not in norm(t)]
+        # anything else that narrows the list may only exclude names the adapter supplies itself: `name not in <parameter>`,
+        # and every caller passes a literal collection of names for that parameter (a bare string would turn the
+        # membership test into a substring test)
+        for t, pol in extra:
+            pos = common.as_positive(t, pol)
+            prm = pos.comparators[0].id if isinstance(pos, ast.Compare) and isinstance(pos.ops[0], ast.NotIn) and isinstance(pos.comparators[0], ast.Name) and pos.comparators[0].id in g.params else None
+            if prm is None:
+                good = False
+                continue
+            for f2 in p.funcs.values():
+                for c in walk_no_nested(f2.node):
+                    if isinstance(c, ast.Call) and resolve_callee(p, c, f2.module) == ("func", g):
+                        v = common.kwarg(c, prm) or (c.args[g.params.index(prm)] if g.params.index(prm) < len(c.args) else None)
+                        if v is None:
+                            continue
+                        lit = isinstance(v, (ast.Tuple, ast.List, ast.Set)) and all(isinstance(e, ast.Constant) and isinstance(e.value, str) for e in v.elts)
+                        rep.add("C15.R2", f"{f2.qualname}:{prm}-is-a-collection-of-names", f"{f2.module.rel}:{c.lineno}", lit, f"{prm}={norm(v)}" if lit else f"`{prm}={norm(v)}` is not a tuple / list / set of names: `name not in {prm}` then is a substring test and options called 'a', 'x', 'i', 's', 'ax' ... are no longer recognised as options of the adapted function")
         rep.add("C15.R2", f"{g.qualname}:keyword-only", g.loc, good, f"{lst} collects exactly the parameters whose kind is KEYWORD_ONLY" if good else f"{lst} is not filled under `param.kind is KEYWORD_ONLY`")
         vk = [r for r in walk_no_nested(g.node) if isinstance(r, ast.Raise) and any("VAR_KEYWORD" in norm(t) and pol for t, pol in cfgg.guards(cfgg.node_for(r)))]
         rep.add("C15.R2", f"{g.qualname}:var-keyword-rejected", g.loc, bool(vk), "functions with **kwargs are rejected (their option names are unknowable)")
